@@ -192,6 +192,12 @@ class CFG:
             return outs + [e]
         if isinstance(st, (ast.Assign, ast.AnnAssign)) and isinstance(getattr(st, "value", None), ast.IfExp) and isinstance(st, ast.Assign):
             return self._ifexp(st, st.value, preds, lambda v: ast.copy_location(ast.Assign(targets=st.targets, value=v), st))
+        # a bare call of a helper that never returns normally (its body always raises) ends the path like `raise`
+        if isinstance(st, ast.Expr) and isinstance(st.value, ast.Call) and _callee_never_returns(st.value):
+            n = self._stmt_node(st, preds)
+            for t in self._raise_targets():
+                self._edge(n, t)
+            return []
         # simple statement (incl. nested def/class: one node)
         n = self._stmt_node(st, preds)
         return [n]
@@ -370,12 +376,117 @@ class CFG:
         d = self.dominators()
         if node.id not in d:
             return []
+        cache = self.__dict__.setdefault("_edge_facts", {}) if hasattr(self, "__dict__") else {}
         facts = []
-        for i in d[node.id]:
+        for i in sorted(d[node.id]):
             e = self.nodes[i]
             if e.kind == "edge" and e.test is not None:
-                facts.extend(decompose(e.test, e.polarity))
+                if i not in cache:
+                    base = decompose(e.test, e.polarity)
+                    extra = []
+                    # the same facts with named booleans / count locals / one-line predicate helpers written out
+                    if any(isinstance(y, (ast.Name, ast.Call)) for y in ast.walk(e.test)):
+                        x = self.expand(e.test, e.pred[0] if e.pred else e)
+                        if x is not e.test:
+                            have = {(ast.dump(t), pol) for t, pol in base}
+                            extra = [(t, pol) for t, pol in decompose(x, e.polarity) if (ast.dump(t), pol) not in have]
+                    cache[i] = base + extra
+                facts.extend(cache[i])
         return facts
+
+    # ------------------------------------------------------------------ expression expansion
+    def _rd(self):
+        if getattr(self, "_rdefs", None) is None:
+            self._rdefs = ReachingDefs(self)
+        return self._rdefs
+
+    def expand(self, expr, at_node, depth=0):
+        """`expr` with (a) every local that has exactly one reaching definition `v = <pure expression>` at `at_node`
+        replaced by that expression (provided the names it mentions still have the same definitions), and (b) calls of
+        one-line predicate helpers (`def h(a, b): return <expr>`) replaced by their body.  Returns `expr` itself when
+        nothing changes.  Used so that `n = len(xs); ok = n == 1; if ok:` yields the fact `len(xs) == 1`."""
+        if depth > 4 or at_node is None:
+            return expr
+        rd = self._rd()
+        byid = self.nodes
+        changed = [False]
+        cfg = self
+
+        def pure(e):
+            for x in ast.walk(e):
+                if isinstance(x, (ast.Await, ast.Yield, ast.YieldFrom, ast.NamedExpr, ast.Lambda)):
+                    return False
+            return True
+
+        class T(ast.NodeTransformer):
+            def visit_Name(self, n):
+                if not isinstance(n.ctx, ast.Load):
+                    return n
+                defs = rd.defs_reaching(at_node, n.id)
+                if len(defs) != 1:
+                    return n
+                d = byid[defs[0]]
+                st = d.ast
+                if d.kind != "stmt" or not isinstance(st, ast.Assign) or len(st.targets) != 1 or not isinstance(st.targets[0], ast.Name) or st.targets[0].id != n.id:
+                    return n
+                v = st.value
+                if not pure(v) or isinstance(v, (ast.Constant, ast.List, ast.Dict, ast.Set, ast.ListComp, ast.SetComp, ast.DictComp)):
+                    return n
+                # only expressions that read like conditions / counts / plain aliases are written out
+                if not isinstance(v, (ast.Compare, ast.BoolOp, ast.UnaryOp, ast.Call, ast.Attribute, ast.Subscript, ast.Name, ast.BinOp, ast.IfExp)):
+                    return n
+                if isinstance(v, ast.Call) and not (isinstance(v.func, ast.Name) and v.func.id in ("len", "isinstance", "any", "all", "bool", "callable", "hasattr", "int") or _one_line_body(v) is not None):
+                    return n
+                for y in ast.walk(v):
+                    if isinstance(y, ast.Name) and isinstance(y.ctx, ast.Load) and rd.defs_reaching(d, y.id) != rd.defs_reaching(at_node, y.id):
+                        return n  # a name of the definition was rebound in between
+                changed[0] = True
+                new = _clone(v)
+                new = cfg.expand(new, d, depth + 1)
+                return ast.copy_location(new, n)
+
+            def visit_Call(self, c):
+                self.generic_visit(c)
+                body = _one_line_body(c)
+                if body is None:
+                    return c
+                fdef, ret = body
+                params = [a.arg for a in fdef.args.posonlyargs + fdef.args.args]
+                if fdef.args.vararg or fdef.args.kwarg or any(isinstance(a, ast.Starred) for a in c.args) or any(k.arg is None for k in c.keywords):
+                    return c
+                is_method = bool(params) and params[0] in ("self", "cls") and isinstance(c.func, ast.Attribute)
+                mapping = {}
+                if is_method:
+                    mapping[params[0]] = c.func.value
+                    params = params[1:]
+                for i, a in enumerate(c.args):
+                    if i < len(params):
+                        mapping[params[i]] = a
+                for k in c.keywords:
+                    mapping[k.arg] = k.value
+                defaults = fdef.args.defaults
+                for prm, dflt in zip(([a.arg for a in fdef.args.posonlyargs + fdef.args.args])[len(fdef.args.posonlyargs + fdef.args.args) - len(defaults):], defaults):
+                    mapping.setdefault(prm, dflt)
+                need = {x.id for x in ast.walk(ret) if isinstance(x, ast.Name) and isinstance(x.ctx, ast.Load)} & set([a.arg for a in fdef.args.posonlyargs + fdef.args.args])
+                if not need <= set(mapping):
+                    return c
+                class S(ast.NodeTransformer):
+                    def visit_Name(self, n):
+                        if isinstance(n.ctx, ast.Load) and n.id in mapping:
+                            return _clone(mapping[n.id])
+                        return n
+
+                changed[0] = True
+                return ast.copy_location(S().visit(_clone(ret)), c)
+
+        new = T().visit(_clone(expr))
+        if not changed[0]:
+            return expr
+        ast.fix_missing_locations(new)
+        _set_parents(new)
+        new._parent = getattr(expr, "_parent", None)
+        new._expanded_from = expr
+        return new
 
     def guards_of_ast(self, astnode):
         n = self.node_for(astnode)
@@ -466,6 +577,90 @@ def expression_guards(node):
         child = p
         p = getattr(p, "_parent", None)
     return facts
+
+
+# --------------------------------------------------------------------------------------
+# Lexical lookup of helpers (no Project needed: parents are climbed to the module)
+# --------------------------------------------------------------------------------------
+
+
+def _clone(node):
+    """structural copy of an expression (fields only: the `_parent` back references are not followed)"""
+    if isinstance(node, list):
+        return [_clone(x) for x in node]
+    if not isinstance(node, ast.AST):
+        return node
+    new = type(node)(**{f: _clone(v) for f, v in ast.iter_fields(node)})
+    return ast.copy_location(new, node) if hasattr(node, "lineno") else new
+
+
+def _set_parents(tree):
+    for n in ast.walk(tree):
+        for c in ast.iter_child_nodes(n):
+            c._parent = n
+
+
+def _lookup_def(call):
+    """FunctionDef a call denotes when that is lexically evident: `name(...)` -> a def of that name in an enclosing
+    function or at module level; `self.name(...)` / `cls.name(...)` -> a method of the enclosing class."""
+    f = call.func
+    scopes = []
+    p = getattr(call, "_parent", None)
+    cls = None
+    while p is not None:
+        if isinstance(p, (ast.FunctionDef, ast.AsyncFunctionDef, ast.Module)):
+            scopes.append(p)
+        if isinstance(p, ast.ClassDef) and cls is None:
+            cls = p
+        p = getattr(p, "_parent", None)
+    if isinstance(f, ast.Name):
+        for sc in scopes:
+            found = [st for st in sc.body if isinstance(st, (ast.FunctionDef, ast.AsyncFunctionDef)) and st.name == f.id]
+            # a name that is also assigned in that scope is not reliably the def
+            if found:
+                rebound = any(isinstance(st, ast.Assign) and any(isinstance(t, ast.Name) and t.id == f.id for t in st.targets) for st in sc.body)
+                return None if rebound or len(found) != 1 else found[0]
+            if isinstance(sc, (ast.FunctionDef, ast.AsyncFunctionDef)):
+                a = sc.args
+                if f.id in {x.arg for x in a.posonlyargs + a.args + a.kwonlyargs} | ({a.vararg.arg} if a.vararg else set()) | ({a.kwarg.arg} if a.kwarg else set()):
+                    return None  # a parameter shadows it
+        return None
+    if isinstance(f, ast.Attribute) and isinstance(f.value, ast.Name) and f.value.id in ("self", "cls") and cls is not None:
+        found = [st for st in cls.body if isinstance(st, (ast.FunctionDef, ast.AsyncFunctionDef)) and st.name == f.attr]
+        return found[0] if len(found) == 1 else None
+    return None
+
+
+def _block_never_returns(body):
+    """every path through the statement list ends in `raise` (no return, no fall-through)"""
+    for st in body:
+        if isinstance(st, ast.Raise):
+            return True
+        if isinstance(st, ast.If) and st.orelse and _block_never_returns(st.body) and _block_never_returns(st.orelse):
+            return True
+        if isinstance(st, (ast.Return,)):
+            return False
+    return False
+
+
+def _callee_never_returns(call):
+    fdef = _lookup_def(call)
+    if fdef is None or any(isinstance(x, (ast.Yield, ast.YieldFrom)) for x in ast.walk(fdef)):
+        return False
+    if any(isinstance(x, ast.Return) for x in ast.walk(fdef)):
+        return False
+    return _block_never_returns(fdef.body)
+
+
+def _one_line_body(call):
+    """(FunctionDef, returned expression) when the call denotes a helper whose body is `return <expr>`"""
+    fdef = _lookup_def(call)
+    if fdef is None or fdef.decorator_list:
+        return None
+    body = [st for st in fdef.body if not (isinstance(st, ast.Expr) and isinstance(st.value, ast.Constant))]
+    if len(body) == 1 and isinstance(body[0], ast.Return) and body[0].value is not None:
+        return fdef, body[0].value
+    return None
 
 
 # --------------------------------------------------------------------------------------
